@@ -579,7 +579,7 @@ theorem step_nosub {s : Sess} {sub : SubId} (e : SEv) (he : ∀ id beh, e ≠ .m
           · split
             · simpa using h
             · rw [(settle_fields _ _ _).1]; simpa using h
-      | invocation id reg p rp => exact (noSubLiftX sub).onInvocation h beh id reg p rp
+      | invocation id reg p rp => exact (noSubLiftX sub).onInvocation h beh id reg p _
       | interrupt id => exact (noSubLiftX sub).settleInv h id _
       | welcome sid => exact h
       | abort => exact h
